@@ -544,10 +544,20 @@ class UnionProvider(LoaderProvider, DumperProvider):
         literal_dumper: Dumper,
         literal_cases: Sequence[Any],
     ) -> Dumper:
+        literal_types = frozenset(type(case) for case in literal_cases)
+
         def union_dumper_with_literal(data):
-            if data in literal_cases:
+            data_type = type(data)
+            # an object equal to a literal but of another class (Decimal(1) == 1) belongs to the case of its own class
+            if data_type in literal_types and data in literal_cases:
                 return literal_dumper(data)
-            return dumper_type_dispatcher.dispatch(type(data))(data)
+            try:
+                dumper = dumper_type_dispatcher.dispatch(data_type)
+            except KeyError:
+                if data in literal_cases:
+                    return literal_dumper(data)
+                raise
+            return dumper(data)
 
         return union_dumper_with_literal
 
